@@ -105,6 +105,16 @@ CLAIMS = {
              'the recorded binding must equal what the caller gave, the registration namespace being the default, and '
              'the result is passed back unchanged. Exhaustive over that finite space.',
         ref='5 C17', technique='symbolic execution (CrossHair+z3) of the real delegating methods vs signature-derived expectations'),
+    'C10': dict(
+        text='The real _handle_reconnect of Client and AsyncClient is executed with reconnection_delay, '
+             'reconnection_delay_max, randomization_factor and every random() draw as symbolic reals and the failure '
+             'pattern, attempt limit and abort position as tape choices; z3 (real arithmetic) decides the back-off bound, '
+             'the attempt count, wait/attempt pairing, attempt parameters and final notification on every path (up to 5, '
+             'thorough 8, waits). A second check runs the real client on the fake engine.io through four causes of '
+             'loss, transport and namespace failures of attempts, success (handlers re-run, fresh sids), a second loss '
+             'and shutdown during back-off.',
+        ref='5 C10', note=NOTE_XH + ' Floats are modelled as reals (1e-9 slack).',
+        technique='symbolic execution (CrossHair+z3, real arithmetic) of the real reconnect loop with time and randomness as symbolic inputs'),
 }
 
 PENDING = 'check not built yet in this tree (work in progress); no claim is made'
